@@ -354,6 +354,7 @@ class NP2Converter:
             )
             return 0
 
+        self.check_completed = False
         self.shank_info = self._prepare_files_NP24(overwrite=overwrite)
         if self.already_exists:
             _logger.warning(
@@ -550,6 +551,7 @@ class NP2Converter:
 
         :return:
         """
+        self.check_completed = False
         for sh in self.shank_info.keys():
             self.shank_info[sh]["sr"] = spikeglx.Reader(self.shank_info[sh]["ap_file"], sort=False)
         wg = WindowGenerator(self.nsamples, self.samples_window, 0)
